@@ -56,8 +56,8 @@ def _kind_and_value(x, pj):
 
 def _sc(x):
     x = float(x)
-    if x != x or abs(x) * S >= 2 ** 30:
-        return 2 ** 30 - 1
+    if x != x or abs(x) * S >= 5000000:      # NaN / absurd: a sentinel no exact value is close to
+        return 5000000
     return int(round(x * S))
 
 
@@ -554,9 +554,9 @@ def judge_prof(ctx, vec, case, res, ref):
 def random_case(rng, tid):
     """Seeded random run for binding B (TLC computes the expectation from the logged inputs)."""
     nr = rng.randint(1, MAX_SIZE)
-    n = rng.choice([0, 1, 2, 2, 3, 3, 4, 5, 6, 7, 8, 10, 12])
+    n = rng.choice([0, 1, 2, 2, 3, 3, 4, 5, 6, 7, 8, 10])
     v = [[rng.randint(0, 5), 1] for _ in range(n)]
-    w = [list(_qp(Fraction(rng.randint(1, 8), 4))) for _ in range(n)]
+    w = [list(_qp(Fraction(rng.randint(1, 4), 4))) for _ in range(n)]     # keeps TLC's 32-bit rationals small
     c = dict(kind='ov', tid=tid, v=v, w=w, nr=nr, log=True, npw=bool(rng.getrandbits(1)))
     mode = rng.random()
     if mode < 0.5:
